@@ -127,6 +127,14 @@ impl AddressRecord {
 /// Check if a multiaddr represents a global/public address.
 ///
 /// DNS addresses are considered potentially public.
+#[cfg(litep2p_verif)]
+impl AddressRecord {
+    /// Score of the record (verification only).
+    pub fn verif_score(&self) -> i32 {
+        self.score
+    }
+}
+
 fn is_global_multiaddr(address: &Multiaddr) -> bool {
     for protocol in address.iter() {
         match protocol {
